@@ -12,18 +12,43 @@ RULE = ('the real fabric with 1-3 subscriber queues; 1-2 client threads publish 
         '(the lag is the injected fault; with 2-3 publishers one of them may also be stalled in the middle of publish() while the others go on); oracle evaluated at every get of a delivery thread on the real contents of that '
         'fabric queue: no queued event has a smaller priority number than the one taken, and no queued event of equal '
         'priority was published before it (publish call returned before the other publish call began - for overlapping '
-        'publish calls of two threads no order is demanded); the same rule is checked again on the order in which the events arrive in each subscriber queue. Non-trivial = a get that saw >= 3 queued items with a priority '
+        'publish calls of two threads no order is demanded); the same rule is checked again on the order in which the events arrive in each subscriber queue. Second stratum: one client stops and restarts the fabric while another keeps publishing. Non-trivial = a get that saw >= 3 queued items with a priority '
         'tie; distinct = distinct (priority sequence, queue length at get) tuples.')
-ASSUMPTIONS = ['no fabric stop in this stratum (the stop signal uses priority 1 by design)']
+ASSUMPTIONS = ['the stop wake-up item (priority 1 by design) is not a publication and is left out of the order']
 PROBES = ['fabric_get_with_3_or_more_items', 'fabric_get_with_priority_tie']
 PLAN = {
-  'quick': {'strata': {'bursts': 4000}, 'wall_s': 300, 'chunk': 50, 'min_conclusive': 1000},
-  'thorough': {'strata': {'bursts': 120000}, 'wall_s': 900, 'chunk': 100, 'min_conclusive': 1000},
+  'quick': {'strata': {'bursts': 4000, 'restart': 1500}, 'wall_s': 300, 'chunk': 50, 'min_conclusive': 1000},
+  'thorough': {'strata': {'bursts': 120000, 'restart': 50000}, 'wall_s': 900, 'chunk': 100, 'min_conclusive': 1000},
 }
+
+
+def generate_restart(rng):
+  # publications land while the fabric is being stopped, then it is started again: whatever waits in it still leaves
+  # it by priority and, among equals, in publish order
+  nq = rng.randrange(1, 3)
+  queues = [{'kind': 'deque', 'prefill': 0} for _ in range(nq)]
+  sigs = ['SA']
+  prios = rng.choice([[1000], [5, 5, 7], [None, 1000]])
+  c0 = [['start']] + [['subscribe', qi, 'SA', rng.choice(['fifo', 'lifo']), 'event'] for qi in range(nq)]
+  for _ in range(rng.randrange(1, 5)):
+    c0.append(['publish', 'SA', rng.choice(prios)])
+  c0.append(['stop'])
+  for _ in range(rng.randrange(0, 3)):
+    c0.append(['publish', 'SA', rng.choice(prios)])
+  c0 += [['start'], ['sleep', 0.05]]
+  c1 = [['sleep', 0.001]] + [['publish', 'SA', rng.choice(prios)] for _ in range(rng.randrange(2, 7))]
+  victims = [rng.choice(['fabric.fifo', 'fabric.lifo'])] if rng.random() < 0.6 else ['fabric.fifo', 'fabric.lifo']
+  sd = {'gran': rng.choice(['sync', 'line']), 'policy': 'starve', 's': rng.choice([0.5, 0.9]), 'victims': victims,
+        'start': rng.randrange(0, 60), 'len': rng.choice([100, 400, 2000])}
+  if rng.random() < 0.4:
+    sd = common.draw_sched(rng, grans=('sync', 'line'), expected_steps=400, victims=victims)
+  return {'queues': queues, 'clients': [c0, c1], 'signals': sigs, 'sched': sd, 'stratum': 'restart'}
 
 
 def generate(seed, stratum, tier):
   rng = random.Random(seed)
+  if stratum == 'restart':
+    return generate_restart(rng)
   nq = rng.randrange(1, 4)
   queues = [{'kind': 'deque', 'prefill': 0} for _ in range(nq)]
   sigs = ['SA', 'SB'][:rng.randrange(1, 3)]
